@@ -332,16 +332,16 @@ class EditableModule(object):
         # Sequence the tensors used in executing the method by calling the method
         # and see which parameters are connected in the backward graph
 
-        # get all the tensors recursively
+        # get all the tensors recursively, and the places they are held in
         all_tensors, all_names = _get_tensors(self)
+        all_places = _get_tensor_places(self)
 
         # copy the tensors and require them to be differentiable
         copy_tensors0 = [tensor.clone().detach().requires_grad_() for tensor in all_tensors]
-        copy_tensors = copy.copy(copy_tensors0)
-
         # run the method and see which one has the gradients
         try:
-            _set_tensors(self, copy_tensors)
+            for (objdict, key), tensor in zip(all_places, copy_tensors0):
+                objdict[key] = tensor
             output = method(*args, **kwargs)
             if isinstance(output, (list, tuple)) and len(output) > 0 and \
                     all(isinstance(out, torch.Tensor) for out in output):
@@ -353,9 +353,11 @@ class EditableModule(object):
                 output = output.sum()
             grad_tensors = torch.autograd.grad(output, copy_tensors0, retain_graph=True, allow_unused=True)
         finally:
-            # return the original tensor (also if the method raises)
-            all_tensors_copy = copy.copy(all_tensors)
-            _set_tensors(self, all_tensors_copy)
+            # return the original tensors to exactly the places they were taken
+            # from (also if the method raises, and also if running the method has
+            # changed what a fresh traversal of the object would find)
+            for (objdict, key), tensor in zip(all_places, all_tensors):
+                objdict[key] = tensor
 
         names = []
         params = []
@@ -467,6 +469,16 @@ def _get_tensors(obj, prefix="", max_depth=20):
     crit = lambda elmt: isinstance(elmt, torch.Tensor) and elmt.dtype in torch_float_type
     _traverse_obj(obj, action=action, crit=crit, prefix=prefix, max_depth=max_depth)
     return res, names
+
+def _get_tensor_places(obj, max_depth=20):
+    # the (container, key) pairs holding the tensors, in the order of _get_tensors
+    places = []
+
+    def action(elmt, name, objdict, key):
+        places.append((objdict, key))
+    crit = lambda elmt: isinstance(elmt, torch.Tensor) and elmt.dtype in torch_float_type
+    _traverse_obj(obj, action=action, crit=crit, prefix="", max_depth=max_depth)
+    return places
 
 def _set_tensors(obj, all_params, max_depth=20):
     """
